@@ -7,7 +7,8 @@ RULE = (
     "(instance, script). One evaluation = one comparison of a context execution with its solo reference on masks before "
     "every step (bit-exact), finishing step (exact) and reward (1e-5 rel). Contexts: the pool run, reversed pool with "
     "other padding actions, pairs with the slowest stranger in both orders, subsets of 3 and 7 at random positions, 4 "
-    "copies of the instance following different scripts. Non-trivial = distinct "
+    "copies of the instance following different scripts, the pool doubled on the SAME env object (a later reset with a larger batch), "
+    "and a fresh env object whose first reset is a solo run and whose second is the pool. Non-trivial = distinct "
     "(context, instance, script, batch size, position)"
 )
 ASSUMPTIONS = [
@@ -16,7 +17,7 @@ ASSUMPTIONS = [
     "masks offered AFTER the finishing step are not compared (the statement is about the action sequence up to finishing)",
     "DPP/MDPP on synthetic PDN data",
 ]
-REQUIRED_COUNTERS = ["episodes", "c04_solo_runs", "c04_context_comparisons", "c04_rows_padded>=2", "c04_ctx_pool", "c04_ctx_pair", "c04_ctx_subset", "c04_ctx_copies"]
+REQUIRED_COUNTERS = ["episodes", "c04_solo_runs", "c04_context_comparisons", "c04_rows_padded>=2", "c04_ctx_pool", "c04_ctx_pair", "c04_ctx_subset", "c04_ctx_copies", "c04_ctx_doubled", "c04_ctx_solo_then_batch"]
 MIN_NONTRIVIAL = {"quick": 5000, "thorough": 60000}
 WORKERS = {"quick": 14, "thorough": 16}
 BUDGET_S = {"quick": 500, "thorough": 3000}
@@ -34,7 +35,7 @@ def cases(tier, seed):
         for fam in ("gen", "boundary", "degenerate"):
             if fam != "gen" and cfg["env"] == "mtvrp" and cfg.get("preset") not in ("all", "vrpb", "ovrpbltw"):
                 continue
-            if fam != "gen" and cfg["env"] in ("tsp", "atsp", "pdp", "svrp", "cvrptw", "mdcpdp") and fam == "boundary":
+            if fam != "gen" and cfg["env"] in ("tsp", "atsp", "pdp", "svrp", "mdcpdp") and fam == "boundary":
                 continue  # no boundary family defined: identical to gen
             for r in range(reps if fam == "gen" else max(1, reps // 2)):
                 out.append(dict(cfg=cfg, family=fam, B=8 if tier == "quick" else 12, s=rnd.randrange(10**6)))
